@@ -662,6 +662,26 @@ fn clock_filter(site: &'static str) -> bool {
 struct E2Setup {
 	m: Manager,
 	clock: ClockHandle,
+	/// the clock as the audio thread saw it in the last chunk: (ticking, ticks, fraction)
+	seen: Arc<Mutex<Option<(bool, u64, f64)>>>,
+}
+struct ClockSpy(kira::clock::ClockId, Arc<Mutex<Option<(bool, u64, f64)>>>);
+impl kira::sound::Sound for ClockSpy {
+	fn process(&mut self, out: &mut [kira::Frame], _dt: f64, info: &kira::info::Info) {
+		out.fill(kira::Frame::ZERO);
+		*self.1.lock().unwrap() = info.clock_info(self.0).map(|c| (c.ticking, c.time.ticks, c.time.fraction));
+	}
+	fn finished(&self) -> bool {
+		false
+	}
+}
+struct ClockSpyData(kira::clock::ClockId, Arc<Mutex<Option<(bool, u64, f64)>>>);
+impl kira::sound::SoundData for ClockSpyData {
+	type Error = ();
+	type Handle = ();
+	fn into_sound(self) -> Result<(Box<dyn kira::sound::Sound>, ()), ()> {
+		Ok((Box::new(ClockSpy(self.0, self.1)), ()))
+	}
 }
 
 fn e2_setup(which: u64) -> (E2Setup, usize) {
@@ -669,10 +689,12 @@ fn e2_setup(which: u64) -> (E2Setup, usize) {
 	let mut m = rig::manager(4, ibs, rig::caps(2), MainTrackBuilder::new());
 	let mut clock = m.add_clock(ClockSpeed::TicksPerSecond(3.0)).expect("clock");
 	clock.start();
+	let seen = Arc::new(Mutex::new(None));
+	m.play(ClockSpyData(clock.id(), seen.clone())).map_err(|_| ()).expect("spy");
 	let mut buf = vec![0.0f32; 16];
 	rig::callback(&mut m, &mut buf, frames, 2);
 	rig::callback(&mut m, &mut buf, frames, 2);
-	(E2Setup { m, clock }, frames)
+	(E2Setup { m, clock, seen }, frames)
 }
 
 fn e2(tier: Tier, which: u64, ctx: &mut Ctx) {
@@ -698,20 +720,22 @@ fn e2(tier: Tier, which: u64, ctx: &mut Ctx) {
 	type Obs = (Vec<(u64, f64)>, Vec<bool>);
 	let mut body = |prefix: &[u8]| -> (sched::RunResult, Obs) {
 		let (s, frames) = e2_setup(which);
-		let E2Setup { mut m, clock } = s;
+		let E2Setup { mut m, clock, seen } = s;
 		let mut renderer = m.backend_mut().renderer.take().expect("renderer");
+		let back: Arc<Mutex<Option<kira::backend::Renderer>>> = Arc::new(Mutex::new(None));
 		let reads: Arc<Mutex<Vec<(u64, f64)>>> = Arc::new(Mutex::new(vec![]));
 		let flags: Arc<Mutex<Vec<bool>>> = Arc::new(Mutex::new(vec![]));
 		let keep: Arc<Mutex<Option<ClockHandle>>> = Arc::new(Mutex::new(None));
 		let mut ex = Exec::begin(&cfg, prefix);
 		{
+			let back = back.clone();
 			ex.spawn("audio", move || {
 				let mut buf = vec![0.0f32; 16];
 				for _ in 0..2 {
 					renderer.on_start_processing();
 					renderer.process(&mut buf[..frames * 2], 2);
 				}
-				// keep the renderer alive until the thread ends (it is dropped here, on this thread, outside any check)
+				*back.lock().unwrap() = Some(renderer);
 			});
 		}
 		{
@@ -739,6 +763,32 @@ fn e2(tier: Tier, which: u64, ctx: &mut Ctx) {
 			});
 		}
 		let res = ex.run();
+		// sequential epilogue: two more callbacks with nobody racing; now the handle must show exactly the time the audio
+		// thread's clock has (a torn or stale publication cannot be excused by a race any more)
+		let handle = keep.lock().unwrap().take();
+		let renderer = back.lock().unwrap().take();
+		if let (Some(handle), Some(r), true) = (handle, renderer, res.panics.is_empty()) {
+			m.backend_mut().renderer = Some(r);
+			let mut buf = vec![0.0f32; 16];
+			// the handle shows what the audio thread publishes at the start of a callback: the clock at the end of the one before
+			rig::callback(&mut m, &mut buf, frames, 2);
+			let audio = *seen.lock().unwrap();
+			rig::callback(&mut m, &mut buf, frames, 2);
+			let t = handle.time();
+			let agree = match audio {
+				Some((ticking, ticks, fraction)) => ticking == handle.ticking() && ticks == t.ticks && fraction == t.fraction,
+				None => false,
+			};
+			flags.lock().unwrap().push(agree);
+			if !agree {
+				reads.lock().unwrap().push((u64::MAX, 0.0));
+				reads.lock().unwrap().push((t.ticks, t.fraction));
+				if let Some((_, ticks, fraction)) = audio {
+					reads.lock().unwrap().push((ticks, fraction));
+				}
+			}
+			drop(handle);
+		}
 		drop(keep);
 		drop(m);
 		let r = reads.lock().unwrap().clone();
@@ -751,7 +801,19 @@ fn e2(tier: Tier, which: u64, ctx: &mut Ctx) {
 	let mut nontrivial = 0u64;
 	let mut first: Option<Obs> = None;
 	let mut judge = |res: &sched::RunResult, obs: &Obs, choices: &[u8]| {
-		let (reads, _flags) = obs;
+		let (reads, flags) = obs;
+		// (the epilogue appends a marker and its two readings when handle and audio thread disagree at rest)
+		let (reads, epilogue): (Vec<(u64, f64)>, Vec<(u64, f64)>) = match reads.iter().position(|r| r.0 == u64::MAX) {
+			Some(i) => (reads[..i].to_vec(), reads[i + 1..].to_vec()),
+			None => (reads.clone(), vec![]),
+		};
+		let reads = &reads;
+		if flags.contains(&false) {
+			fails.push((
+				format!("two callbacks after the race, with nothing running concurrently, the handle does not show the time the audio thread's clock has :: E2 {}", if which == 2 { "with stop()" } else { "reader||audio" }),
+				format!("handle.time() = {:?}, the clock as seen by a sound on the audio thread at the end of the callback before = {:?}; reads during the race {:?}; schedule {}", epilogue.first(), epilogue.get(1), reads, sched::fmt_schedule(res)),
+			));
+		}
 		outcomes.insert(hash64(&format!("{:?}", reads)));
 		if first.is_none() {
 			first = Some(obs.clone());
